@@ -73,3 +73,47 @@ def honours_pipeline(ctx, variant, n):
         by = None if ctx.mode == "conc" else [H] + S["req"]
         ok = ctx.eq(out[i], S["cval"][i]) if ctx.mode == "sym" else abs(out[i] - S["cval"][i]) <= 1e-6
         ctx.ensure("field=conditioning-value[%d]" % i, ok, using=by)
+
+
+# --- invalidation primitive: delete_fields really deletes -------------------------------------------------------
+@contract(P, "Field.delete_fields/removes-every-selected-stored-field",
+          params=[{"n": n, "select": s} for n in (1, 2, 3, 4) for s in ("all", "live-list", "subset", "name", "slice", "index")
+                  if not (n == 1 and s == "subset")],
+          functions=["field/base.py:Field.delete_fields", "field/base.py:Field.__delitem__"],
+          bounded="1-4 stored fields")
+def delete_fields(ctx, n, select):
+    """every mutator of the kriging setup invalidates cached results through `delete_fields()`; the stale-reuse
+    clause relies on it deleting ALL stored fields (and exactly the selected ones when a selection is given)"""
+    import numpy as np
+    import gstools as gs
+    from gstools.field.base import Field
+    fld = Field(gs.Gaussian(dim=1))
+    pos = np.array([[0.0, 1.0]])
+    names = ["field", "krige_var", "raw", "extra"][:n]
+    vals = {}
+    for i, nm in enumerate(names):
+        v = [ctx.real("%s%d" % (nm[0], j), lo=-2, hi=2) for j in range(2)]
+        vals[nm] = _q(fld, pos if i == 0 else None, field=arr(ctx, v), store=nm)
+    ctx.ensure("stored", list(fld.field_names) == names)
+    if select == "all":
+        gone = list(names)
+        fld.delete_fields()
+    elif select == "live-list":         # the object's own name list, as delete_fields() passes it
+        gone = list(names)
+        del fld[fld.field_names]
+    elif select == "subset":
+        gone = names[::2]
+        fld.delete_fields(list(gone))
+    elif select == "name":
+        gone = [names[-1]]
+        fld.delete_fields(names[-1])
+    elif select == "slice":
+        gone = names[1:]
+        del fld[1:]
+    else:
+        gone = [names[0]]
+        del fld[0]
+    keep = [nm for nm in names if nm not in gone]
+    ctx.ensure("field_names=remaining", list(fld.field_names) == keep)
+    ctx.ensure("deleted-attributes-gone", not any(hasattr(fld, nm) for nm in gone))
+    ctx.ensure("remaining-fields-untouched", all(fld[nm] is vals[nm] for nm in keep))
